@@ -315,6 +315,9 @@ MUTANTS = [
     ("c04-intersect-geodesic-unfix-apply", ["C04"], "SH5", H,
      "        intersections = PointPair(Point(klein_pts, model=Model.KLEIN))\n        return Point(coord_change @ intersections)\n",
      "        return coord_change @ Point(klein_pts, model=Model.KLEIN)\n"),
+    ("c13-surface-polygon-unfix-base-ring", ["C13"], "U1", H,
+     "        base_ring = kwargs.get(\"base_ring\")\n",
+     ""),
     # ---- C15
     ("c15-drop-reflection-guard", ["C15"], "R1", H,
      "        if (np.abs(eval_differences) > ERROR_THRESHOLD).any():\n            raise GeometryError(\"Not a reflection matrix\")\n",
